@@ -992,6 +992,273 @@ struct H {
         return o;
     }
 
+
+    // ---------------------------------------------------------------- long-lived proxies
+    // One or two proxies of e (positions i, j), a proxy copy-constructed from the first, and a proxy of a
+    // DIFFERENT bitset are HELD while the owner is modified through another path; then they are read
+    // (bool, ~), written, flipped, assigned to each other in both directions, used as a source for another
+    // element, and assigned across the two bitsets - std::bitset<N>::reference objects held and driven
+    // identically are the oracle.  A proxy must be a live view of its bit, not a snapshot.
+    enum HM {
+        HM_NONE, HM_SET_ALL, HM_RESET_ALL, HM_FLIP_ALL, HM_NOT, HM_SETP, HM_SETPV, HM_RESETP, HM_FLIPP, HM_AND_A, HM_OR_A, HM_XOR_A,
+        HM_XOR_SELF, HM_ASSIGN, HM_SWAP, HM_P2_FLIP, HM_P2_ASSIGN, HM_P2_FROM, HM_SHL_A, HM_SHR_A, HM_NUM
+    };
+    enum HU { HU_READ, HU_WRITE, HU_FLIP, HU_R1_R2, HU_R2_R1, HU_SOURCE, HU_COPY_WRITE, HU_CROSS_TO, HU_CROSS_FROM, HU_NUM };
+    static char const* hm_label(int mod)
+    {
+        constexpr bool chk = has_set_pos<E>;
+        switch (mod) {
+        case HM_NONE: return "held-proxy across nothing";
+        case HM_SET_ALL: return "held-proxy across set()";
+        case HM_RESET_ALL: return "held-proxy across reset()";
+        case HM_FLIP_ALL: return "held-proxy across flip()";
+        case HM_NOT: return "held-proxy across b=~b";
+        case HM_SETP: return chk ? "held-proxy across set(pos)" : "held-proxy across unchecked_set(pos)";
+        case HM_SETPV: return chk ? "held-proxy across set(pos,val)" : "held-proxy across unchecked_set(pos,val)";
+        case HM_RESETP: return chk ? "held-proxy across reset(pos)" : "held-proxy across unchecked_reset(pos)";
+        case HM_FLIPP: return chk ? "held-proxy across flip(pos)" : "held-proxy across unchecked_flip(pos)";
+        case HM_AND_A: return "held-proxy across operator&=";
+        case HM_OR_A: return "held-proxy across operator|=";
+        case HM_XOR_A: return "held-proxy across operator^=";
+        case HM_XOR_SELF: return "held-proxy across operator^=(self)";
+        case HM_ASSIGN: return "held-proxy across operator=(other)";
+        case HM_SWAP: return "held-proxy across swap(other)";
+        case HM_P2_FLIP: return "held-proxy across b[pos].flip()";
+        case HM_P2_ASSIGN: return "held-proxy across b[pos]=val";
+        case HM_P2_FROM: return "held-proxy across b[pos]=b[pos2]";
+        case HM_SHL_A: return "held-proxy across operator<<=";
+        default: return "held-proxy across operator>>=";
+        }
+    }
+    static char const* hu_label(int use)
+    {
+        constexpr char const* l[HU_NUM] = {"read", "write(r=val)", "r.flip()", "r=r2", "r2=r", "b[pos3]=r", "write-through-copy", "r=other-bitset-proxy",
+            "other-bitset-proxy=r"};
+        return l[use];
+    }
+    static bool hm_supported(int mod)
+    {
+        if (mod == HM_NOT) { return has_not<E>; }
+        if (mod == HM_SHL_A) { return has_shl_assign<E>; }
+        if (mod == HM_SHR_A) { return has_shr_assign<E>; }
+        return true;
+    }
+    template <typename RE, typename RS>
+    void held_read(RE const& re, RS const& rs, char const* which, char const* phase)
+    {
+        sub(which);
+        bool const got = static_cast<bool>(re), exp = static_cast<bool>(rs);
+        ++obs_n[O_IDX_REF];
+        if (got != exp) {
+            char nm[96];
+            std::snprintf(nm, sizeof nm, "%s->bool@%s", which, phase);
+            fail(nm, got ? "true-for-false" : "false-for-true", got ? "true" : "false", exp ? "true" : "false");
+        }
+        bool const ngot = ~re, nexp = ~rs;
+        ++obs_n[O_IDX_REF_NOT];
+        if (ngot != nexp) {
+            char nm[96];
+            std::snprintf(nm, sizeof nm, "~%s@%s", which, phase);
+            fail(nm, ngot ? "true-for-false" : "false-for-true", ngot ? "true" : "false", nexp ? "true" : "false");
+        }
+    }
+    // operates on the current (e, m); b/ob = value and object of the other bitset
+    bool held(int mod, size_t i, size_t j, size_t k3, bool v, int use, M const& b, E const& ob)
+    {
+        if (!hm_supported(mod)) { return false; }
+        M const before = m;
+        u64 const hb   = std::hash<M>{}(before);
+        char const* rel = i == j ? "same-pos" : (i / WB == j / WB ? "same-word" : "other-word");
+        char sit[96];
+        std::snprintf(sit, sizeof sit, "%s,%s", rel, hu_label(use));
+        char const* label = hm_label(mod);
+        crumbf(label, sit, "state=%s pos=%zu pos2=%zu pos3=%zu val=%d other=%s", before.to_string().c_str(), i, j, k3, (int)v, b.to_string().c_str());
+        begin_step();
+        E o(ob);
+        M mo(b);
+        // ---- acquire and hold
+        sub("hold b[pos]", (long)i);
+        auto r1 = e[i];
+        auto s1 = m[i];
+        sub("hold b[pos2]", (long)j);
+        auto r2 = e[j];
+        auto s2 = m[j];
+        sub("copy-construct proxy");
+        auto r1c(r1);
+        auto s1c(s1);
+        sub("hold other[pos2]", (long)j);
+        auto ro = o[j];
+        auto so = mo[j];
+        held_read(r1, s1, "held-proxy", "acquired");
+        // ---- modify the owner through another path (model and tetl side by side)
+        sub("modifier");
+        switch (mod) {
+        case HM_SET_ALL:
+            m.set();
+            e.set();
+            break;
+        case HM_RESET_ALL:
+            m.reset();
+            e.reset();
+            break;
+        case HM_FLIP_ALL:
+            m.flip();
+            e.flip();
+            break;
+        case HM_NOT:
+            if constexpr (has_not<E>) {
+                m           = ~m;
+                E const& ce = e;
+                e           = ~ce;
+            }
+            break;
+        case HM_SETP:
+            m.set(i);
+            if constexpr (has_set_pos<E>) {
+                e.set(i);
+            } else {
+                e.unchecked_set(i);
+            }
+            break;
+        case HM_SETPV:
+            m.set(i, v);
+            if constexpr (has_set_pos<E>) {
+                e.set(i, v);
+            } else {
+                e.unchecked_set(i, v);
+            }
+            break;
+        case HM_RESETP:
+            m.reset(i);
+            if constexpr (has_reset_pos<E>) {
+                e.reset(i);
+            } else {
+                e.unchecked_reset(i);
+            }
+            break;
+        case HM_FLIPP:
+            m.flip(i);
+            if constexpr (has_flip_pos<E>) {
+                e.flip(i);
+            } else {
+                e.unchecked_flip(i);
+            }
+            break;
+        case HM_AND_A:
+            m &= mo;
+            e &= o;
+            break;
+        case HM_OR_A:
+            m |= mo;
+            e |= o;
+            break;
+        case HM_XOR_A:
+            m ^= mo;
+            e ^= o;
+            break;
+        case HM_XOR_SELF: {
+            M const& am = m;
+            m ^= am;
+            E const& ae = e;
+            e ^= ae;
+            break;
+        }
+        case HM_ASSIGN:
+            m = mo;
+            e = o;
+            break;
+        case HM_SWAP:
+            std::swap(m, mo);
+            std::swap(e, o);
+            break;
+        case HM_P2_FLIP:
+            m[i].flip();
+            e[i].flip();
+            break;
+        case HM_P2_ASSIGN:
+            m[i] = v;
+            e[i] = v;
+            break;
+        case HM_P2_FROM: {
+            bool t = m[j];
+            m[i]   = t;
+            e[i]   = e[j];
+            break;
+        }
+        case HM_SHL_A:
+            if constexpr (has_shl_assign<E>) {
+                m <<= k3;
+                e <<= k3;
+            }
+            break;
+        case HM_SHR_A:
+            if constexpr (has_shr_assign<E>) {
+                m >>= k3;
+                e >>= k3;
+            }
+            break;
+        default: break;
+        }
+        // ---- read through every held proxy
+        held_read(r1, s1, "held-proxy", "after-modifier");
+        held_read(r2, s2, "held-proxy2", "after-modifier");
+        held_read(r1c, s1c, "held-proxy-copy", "after-modifier");
+        held_read(ro, so, "other-bitset-proxy", "after-modifier");
+        // ---- use them
+        sub("use");
+        switch (use) {
+        case HU_WRITE:
+            s1 = v;
+            ret_is_proxy(r1 = v, static_cast<bool>(s1));
+            break;
+        case HU_FLIP:
+            s1.flip();
+            ret_is_proxy(r1.flip(), static_cast<bool>(s1));
+            break;
+        case HU_R1_R2:
+            s1 = s2;
+            ret_is_proxy(r1 = r2, static_cast<bool>(s1));
+            break;
+        case HU_R2_R1:
+            s2 = s1;
+            ret_is_proxy(r2 = r1, static_cast<bool>(s2));
+            break;
+        case HU_SOURCE:
+            m[k3 % N] = s1;
+            e[k3 % N] = r1;
+            break;
+        case HU_COPY_WRITE:
+            s1c = v;
+            ret_is_proxy(r1c = v, static_cast<bool>(s1c));
+            break;
+        case HU_CROSS_TO:
+            s1 = so;
+            ret_is_proxy(r1 = ro, static_cast<bool>(s1));
+            break;
+        case HU_CROSS_FROM:
+            so = s1;
+            ret_is_proxy(ro = r1, static_cast<bool>(so));
+            break;
+        default: break;
+        }
+        held_read(r1, s1, "held-proxy", "after-use");
+        held_read(r2, s2, "held-proxy2", "after-use");
+        held_read(r1c, s1c, "held-proxy-copy", "after-use");
+        held_read(ro, so, "other-bitset-proxy", "after-use");
+        vf::cover(label, vf::mix(vf::mix(cfgh, hb), vf::mix(vf::mix(i * 1024 + j, k3 * 2 + (v ? 1 : 0)), vf::mix((u64)use, std::hash<M>{}(b)))), true);
+        if ((N == 1 || (before.any() && !before.all())) && vf::want_sample(label)) {
+            vf::sample(label, "%s: %s, pos=%zu pos2=%zu, then %s: %s -> %s (other bitset %s -> %s); proxies read before and after, every observer compared", subj,
+                label, i, j, hu_label(use), before.to_string().c_str(), m.to_string().c_str(), b.to_string().c_str(), mo.to_string().c_str());
+        }
+        observe(e, m);
+        sub("other-bitset-after");
+        on_operand = true;
+        observe(o, mo, false);
+        on_operand = false;
+        if (end_step()) { resync(); }
+        return true;
+    }
+
     // ---------------------------------------------------------------- constructors
     void ctor_ull(unsigned long long val)
     {
@@ -1375,6 +1642,43 @@ struct H {
             // and twice in a row (flip().flip(), set().set(), ...)
             step(op, Arg{});
         }
+        // long-lived proxies: every owner modifier x held positions x (same position / same word / other word),
+        // the use of the proxies rotates so that over the value set every (modifier, relation, use) is reached
+        {
+            std::vector<size_t> is;
+            if constexpr (small) {
+                for (size_t p = 0; p < N; ++p) { is.push_back(p); }
+            } else {
+                size_t const cand[8] = {0, N - 1, 7, 8, WB - 1, WB, N / 2, N - 2};
+                for (size_t c : cand) {
+                    size_t p = c % N;
+                    bool dup = false;
+                    for (size_t x : is) { dup = dup || x == p; }
+                    if (!dup) { is.push_back(p); }
+                }
+            }
+            u64 const nv = n_values();
+            M const hb0  = value((k + 1) % nv);
+            M const hb1  = value((k * 7 + 3) % nv);
+            E const ho0  = build_operand(hb0, (unsigned)(k % kRoutes));
+            E const ho1  = build_operand(hb1, (unsigned)((k + 3) % kRoutes));
+            u64 rotu     = k;
+            for (int mod = 0; mod < HM_NUM; ++mod) {
+                if (!hm_supported(mod)) { continue; }
+                for (size_t i : is) {
+                    for (int jsel = 0; jsel < 3; ++jsel) {
+                        size_t j = i;
+                        if (jsel == 1) { j = (i ^ 1) < N ? (i ^ 1) : (i ? i - 1 : 0); }
+                        if (jsel == 2) { j = N > WB ? (i + WB) % N : (i + N / 2) % N; }
+                        bool const odd = (rotu / HU_NUM) & 1;
+                        from_base();
+                        held(mod, i, j, (i + 3) % N, ((rotu / (2 * HU_NUM)) & 1) != 0, (int)(rotu % HU_NUM), odd ? hb1 : hb0, odd ? ho1 : ho0);
+                        ++rotu;
+                    }
+                }
+                ++rotu;
+            }
+        }
         // binary operations with every value of the value set
         for (u64 j = 0; j < n_values(); ++j) {
             M const b = value(j);
@@ -1443,9 +1747,21 @@ struct H {
             if (supported(op)) { ops.push_back(op); }
         }
         for (int s = 0; s < len; ++s) {
-            unsigned pick = (unsigned)r.below(ops.size() + 4);
+            unsigned pick = (unsigned)r.below(ops.size() + 8);
             if (pick >= ops.size()) {
                 switch (pick - ops.size()) {
+                case 4:
+                case 5:
+                case 6:
+                case 7: { // long-lived proxies
+                    M b      = r.below(4) == 0 ? (r.coin() ? m : ~m) : random_value(r);
+                    E ob     = build_operand(b, (unsigned)r.below(kRoutes));
+                    size_t i = random_pos(r);
+                    size_t j = r.below(3) == 0 ? i : random_pos(r);
+                    int mod  = (int)r.below(HM_NUM);
+                    held(mod, i, j, mod >= HM_SHL_A && r.below(4) == 0 ? N + (size_t)r.below(2) : random_pos(r), r.coin(), (int)r.below(HU_NUM), b, ob);
+                    break;
+                }
                 case 0: {
                     unsigned long long val = r.next();
                     if (r.coin()) { val &= (N < 64 ? (1ull << (N < 64 ? N : 0)) - 1 : ~0ull); }
